@@ -23,7 +23,7 @@ THEOREMS = [f'Gnpy.Response.{t}' for t in (
     'one_response_per_request', 'pathResult_id', 'aggregation_spec', 'aggregation_exactly_once',
     'blocked_nopath_shape', 'blocked_shape', 'hopObjs_no_labels', 'served_shape', 'hopObjs_transponder',
     'bidir_has_both', 'metrics_are_receiver_values', 'csv_consistent', 'csv_pass_iff', 'csv_nopath_row',
-    'aggStep_inv', 'absorbInto_split')] + ['Gnpy.HE.abs_round2_sub_le']
+    'aggStep_inv', 'absorbInto_split', 'requestsAggregationD_nil')] + ['Gnpy.HE.abs_round2_sub_le']
 RULE = ('one PRNG; a case = a random mesh of 3-5 ROADM sites (direction-asymmetric spans) plus an unreachable island, a '
         'generated library (feasible, infeasible and wide-band transceivers, optional penalties and offsets) and a batch '
         'of 2-8 requests drawn from the kinds fixed / auto / hard (MODE_NOT_FEASIBLE) / autohard (NO_FEASIBLE_MODE) / narrow '
@@ -32,8 +32,8 @@ RULE = ('one PRNG; a case = a random mesh of 3-5 ROADM sites (direction-asymmetr
         'bidirectional; 10 % of the cases are malformed batches (duplicate id, unknown transceiver, unknown node) that must be '
         'rejected. Non-trivial: at least two different outcome kinds or an aggregation in the batch')
 MODEL_SCOPE = ('modelled: ResultElement.detailed_path_json/path_properties/pathresult, get_penalty_from_receiver, '
-               'results_to_json, requests_aggregation + compare_reqs without disjunctions (the disjunction bookkeeping '
-               'loop is modelled separately as removeWhileIterating), jsontocsv with _jsontoparams/_jsontopath_metric/'
+               'results_to_json, requests_aggregation + compare_reqs (without and with disjunctions: same_disj, id replacement and '
+               'renaming of the absorbing request in the disjunctions), jsontocsv with _jsontoparams/_jsontopath_metric/'
                '_get_srce_dest_trx/read_property. Inputs: request objects after planning, propagated paths, receiver arrays')
 PARTIAL = []
 
@@ -177,6 +177,7 @@ def run(case, drv):
     res.cmp_exact('requests_aggregation', [[q.request_id, float(q.path_bandwidth), list(q.N), list(q.M)] for q in agg_impl],
                   [[m['id'], b2f(m['bw']), m['N'], m['M']] for m in agg_model])
     res.cmp_exact('planning.request_ids', [q.request_id for q in rqs], [m['id'] for m in agg_model])
+    _aggregation_with_disjunctions(res, drv, case, eq, net, reqs, keyf)
     # ---- correspondence: responses -------------------------------------------------------------------------------------------
     args = []
     for rq, p, rp in zip(rqs, pp, rpp):
@@ -242,6 +243,38 @@ def run(case, drv):
         res.stats['multi_slot_served'] += int(rq.N is not None and len(rq.N) > 1)
     res.stats['monitor_ill'] += int(ill)
     return res
+
+
+def _aggregation_with_disjunctions(res, drv, case, eq, net, reqs, keyf):
+    """requests_aggregation called directly with a generated disjunction list (same_disj of compare_reqs, id replacement in
+    the disjunctions, renaming of the surviving request) vs requestsAggregationD"""
+    import random
+    from gnpy.tools.json_io import requests_from_json
+    from gnpy.topology.request import correct_json_route_list, requests_aggregation, Disjunction
+    rng = random.Random('d' + batch_g.canon(reqs)[:300])
+    ids = [r['id'] for r in reqs]
+    if len(ids) < 2:
+        return
+    dis = []
+    for k in range(rng.choice([1, 2, 3, 4])):
+        dis.append({'id': f'd{k}', 'reqs': rng.sample(ids, rng.choice([2, 2, 3]) if len(ids) >= 3 else 2)})
+    fresh = correct_json_route_list(net, requests_from_json({'path-request': [batch_g.req_doc(r) for r in reqs]}, eq))
+    objs = [Disjunction(disjunction_id=d['id'], relaxable=False, link_diverse=True, node_diverse=True,
+                        disjunctions_req=list(d['reqs'])) for d in dis]
+    agg_in = [{'id': q.request_id, 'key': keyf(q), 'has_mode': q.tsp_mode is not None, 'bw': f2b(q.path_bandwidth),
+               'N': [None if x is None else int(x) for x in q.N], 'M': [None if x is None else int(x) for x in q.M]}
+              for q in fresh]
+    out, dout = requests_aggregation(fresh, objs)
+    m = drv.ask('c19.aggregation_d', requests=agg_in, disjunctions=dis)
+    res.cmp_exact('requests_aggregation(disjunctions).requests',
+                  [[q.request_id, float(q.path_bandwidth), list(q.N), list(q.M)] for q in out],
+                  [[x['id'], b2f(x['bw']), x['N'], x['M']] for x in m['requests']])
+    res.cmp_exact('requests_aggregation(disjunctions).disjunctions',
+                  [[d.disjunction_id, list(d.disjunctions_req)] for d in dout],
+                  [[x['id'], x['reqs']] for x in m['disjunctions']])
+    res.stats['aggregation_with_disjunctions'] += 1
+    res.stats['aggregation_with_disjunctions_merged'] += int(len(out) < len(fresh))
+    res.stats['aggregation_disjunctions_removed'] += len(dis) - len(dout)
 
 
 def _perturbed_csv(res, drv, case, eq, impl, lib, margin):
